@@ -125,6 +125,8 @@ type endpoint struct {
 	closeRet bool
 	ierrs    []string
 	arrived  []int64 // nonces of requests in the order they were read
+	unblock  map[int64]chan struct{} // per-call release of a slow handler ("unblock" notification)
+	unblocked map[int64]bool
 	handledAt int    // position in arrived of the last request given to Handle
 }
 
@@ -257,6 +259,12 @@ func (c39) NewRun(plan *simrt.Source, job *harn.Job) harn.Run {
 					}
 				case 5:
 					o.Kind = "call"
+					if plan.Chance(120) {
+						// a pipelined burst: two slow calls, a backlog behind the first, late arrivals behind the second
+						o.Kind = "burst"
+						o.N = 3 + plan.Draw(5)
+						o.CancelCtx = 1 + plan.Draw(4) // (reused as the number of late arrivals)
+					}
 				}
 				if o.Kind == "call" || o.Kind == "notify" {
 					o.Method = methods[plan.Draw(len(methods))]
@@ -361,6 +369,8 @@ func fmtOps(ops []opPlan) string {
 			sb.WriteString(") ")
 		case "notify":
 			fmt.Fprintf(&sb, "notify(%s) ", o.Method)
+		case "burst":
+			fmt.Fprintf(&sb, "burst(slow,slow,%d echo,unblock,%d echo,unblock) ", o.N, o.CancelCtx)
 		case "yield":
 			fmt.Fprintf(&sb, "yield%d ", o.N)
 		default:
@@ -565,6 +575,20 @@ func (ep *endpoint) Bind(ctx context.Context, c *jsonrpc2.Connection) jsonrpc2.C
 	}
 }
 
+// unblockCh returns the channel a slow handler for nonce waits on.
+func (ep *endpoint) unblockCh(nonce int64) chan struct{} {
+	if ep.unblock == nil {
+		ep.unblock = map[int64]chan struct{}{}
+		ep.unblocked = map[int64]bool{}
+	}
+	ch, ok := ep.unblock[nonce]
+	if !ok {
+		ch = make(chan struct{})
+		ep.unblock[nonce] = ch
+	}
+	return ch
+}
+
 func firstWords(s string, n int) string {
 	f := strings.Fields(s)
 	if len(f) > n {
@@ -577,6 +601,13 @@ func (ep *endpoint) preempt(ctx context.Context, req *jsonrpc2.Request) (interfa
 	var p params
 	json.Unmarshal(req.Params, &p)
 	switch req.Method {
+	case "unblock": // release one particular slow handler
+		ch := ep.unblockCh(p.Nonce)
+		if !ep.unblocked[p.Nonce] {
+			ep.unblocked[p.Nonce] = true
+			simrt.Close("preempt:unblock", ch)
+		}
+		return nil, nil
 	case "cancel":
 		ep.conn.Cancel(jsonrpc2.Int64ID(p.ID))
 		ep.r.sim.Probe("cancel-notification-handled")
@@ -633,7 +664,7 @@ func (ep *endpoint) handle(ctx context.Context, req *jsonrpc2.Request) (interfac
 		return expected("echo", p.Nonce), nil
 	case "slow":
 		r.sim.Probe("slow-handler-blocked")
-		simrt.WaitAny("handler:slow", ctx.Done(), r.release)
+		simrt.WaitAny("handler:slow", ctx.Done(), r.release, ep.unblockCh(p.Nonce))
 		if err := ctx.Err(); err != nil {
 			r.sim.Probe("slow-handler-cancelled")
 			return nil, err
@@ -815,6 +846,38 @@ func (r *c39run) doCall(ep *endpoint, task string, o opPlan) {
 	}
 }
 
+// startCall issues a call without awaiting it.
+func (r *c39run) startCall(ep *endpoint, method string) *callRec {
+	r.nonce++
+	cr := &callRec{ep: ep, method: method, nonce: r.nonce}
+	r.calls = append(r.calls, cr)
+	cr.ac = ep.conn.Call(context.Background(), method, params{Nonce: cr.nonce})
+	cr.id = idStr(cr.ac.ID())
+	return cr
+}
+
+// doBurst pipelines calls: slow1, slow2, a backlog of n echo calls queued behind
+// slow1; slow1 is released; m more echo calls arrive while slow2 blocks; slow2
+// is released; then everything is awaited.
+func (r *c39run) doBurst(ep *endpoint, task string, o opPlan) {
+	var all []*callRec
+	s1 := r.startCall(ep, "slow")
+	s2 := r.startCall(ep, "slow")
+	all = append(all, s1, s2)
+	for i := 0; i < o.N; i++ {
+		all = append(all, r.startCall(ep, "echo"))
+	}
+	ep.conn.Notify(context.Background(), "unblock", params{Nonce: s1.nonce})
+	for i := 0; i < o.CancelCtx; i++ {
+		all = append(all, r.startCall(ep, "echo"))
+	}
+	ep.conn.Notify(context.Background(), "unblock", params{Nonce: s2.nonce})
+	r.sim.Probe("pipelined-burst")
+	for _, cr := range all {
+		r.await(cr, context.Background(), 0, true)
+	}
+}
+
 func (r *c39run) doClose(ep *endpoint) {
 	ep.closeInv = true
 	r.anyClose = true
@@ -903,6 +966,8 @@ func (r *c39run) Body(s *simrt.Sim) {
 				case "wait":
 					// Wait only returns once somebody closes; the settle phase does.
 					r.doWait(ep)
+				case "burst":
+					r.doBurst(ep, name, o)
 				case "shutdown":
 					if r.server != nil {
 						r.server.Shutdown()
